@@ -26,6 +26,20 @@ def metadata():
         imp = {f: [x for x in v if x in names] for f, v in feats.items()}
         imp.setdefault("default", [])
         crates[pk["name"]] = (names, imp)
+    # workspace-internal dependency edges: (dependent, dependency) - a dependency's declared features also reach its dependents
+    # through cargo's feature unification
+    edges = []
+    versions = {pk["name"]: pk["version"] for pk in m["packages"]}
+    for pk in m["packages"]:
+        for d in pk.get("dependencies", []):
+            if d["name"] in crates and d.get("kind") in (None, "normal"):
+                # only if the requirement can be met by the workspace member (same 0.x line): ppv-null asks for crypto-simd 0.1,
+                # which comes from the registry, not from the workspace's 0.2
+                want = re.findall(r"\d+", d.get("req", ""))[:2]
+                have = versions[d["name"]].split(".")[:2]
+                if want == have[:len(want)]:
+                    edges.append((pk["name"], d["name"]))
+    crates["__edges__"] = sorted(set(edges))
     return crates
 
 
@@ -75,6 +89,7 @@ def enumerate_configs(c, crates):
 def run(c):
     wd = c.workdir()
     crates = metadata()
+    edges = crates.pop("__edges__")
     cfgs = enumerate_configs(c, crates)
     tdir = os.path.join(vlib.WORK, "target", "c20-lattice")
     verb = "build" if c.thorough else "check"
@@ -90,6 +105,30 @@ def run(c):
             raise vlib.ToolError("cargo %s -p %s failed before compiling anything:\n%s" % (verb, crate, vlib.tail(p.stdout, 12)))
         events.append({"k": 0, "ev": "build", "crate": crate, "features": list(feats), "status": "ok" if p.returncode == 0 else "fail",
                        "errors": errs[:3], "verb": verb})
+    # a dependency built in one of ITS declared configurations must still carry its dependents (feature unification makes
+    # `c2-chacha/no_simd` switch ppv-lite86's backend for every other crate of the build): dependent x {default, no default
+    # features} x each single declared feature of the workspace dependency
+    cross = 0
+    for dep in sorted(set(d for _, d in edges)):
+        dependents = sorted(x for x, d in edges if d == dep)
+        for f in sorted(crates[dep][0]):
+            for nodef in (False, True):
+                # one cargo invocation per (dependency feature, default on/off) covering all dependents
+                cmd = ["cargo", "check", "--offline", "--locked", "--keep-going", "-p", dep, "--features", "%s/%s" % (dep, f), "--target-dir", tdir]
+                for x in dependents:
+                    cmd += ["-p", x]
+                if nodef:
+                    cmd.append("--no-default-features")
+                p = vlib.sh(cmd, cwd=REPO, env={"CARGO_NET_OFFLINE": "true", "RUSTFLAGS": "-Awarnings"}, timeout=1800, check=False)
+                errs = [ln for ln in p.stdout.splitlines() if ln.startswith("error")]
+                if p.returncode != 0 and "could not compile" not in p.stdout and not any(ln.startswith("error[E") for ln in errs):
+                    raise vlib.ToolError("cargo check -p %s with %s/%s failed before compiling anything:\n%s" % (dependents, dep, f, vlib.tail(p.stdout, 12)))
+                failed = set(re.findall(r"could not compile `([^`]+)`", p.stdout))
+                for x in dependents + [dep]:
+                    cross += 1
+                    events.append({"k": 0, "ev": "build", "crate": x, "features": ["%s/%s" % (dep, f)] + (["(no default features)"] if nodef else []),
+                                   "status": "fail" if x in failed else "ok", "errors": errs[:3] if x in failed else [], "verb": "check"})
+    c.cov["cross_crate_configurations"] = cross
     if c.thorough:
         shutil.rmtree(tdir, ignore_errors=True)
     for e in events:
